@@ -240,6 +240,18 @@ def run_fabric(sc, sched, max_steps=150000, settle=True):
     for k, script in enumerate(sc['clients']):
       sim.spawn(run.client, (k, script), role='client')
 
+  def state_fn():
+    f = run.fabric
+    if f is None:
+      return ()
+    return (sum(1 for t in sim.threads if t.role == 'fabric.fifo' and t.state != kernel.DONE),
+            sum(1 for t in sim.threads if t.role == 'fabric.lifo' and t.state != kernel.DONE),
+            min(f.fifo_fabric_queue._qsize(), 6), min(f.lifo_fabric_queue._qsize(), 6),
+            tuple(min(q.real_len(), 4) for q in run.inner),
+            tuple(sorted((k, len(v)) for k, v in f.fifo_subscriptions.items())),
+            tuple(sorted((k, len(v)) for k, v in f.lifo_subscriptions.items())))
+  sim.state_fn = state_fn
+
   sim.spawn(main, role='main')
   reason = sim.run()
   return run, sim, reason
